@@ -162,6 +162,8 @@ def run(db, rep, tier):
                                "on the same wire bits", 60)
     rep.rule("R4-serialiser-stores", "serialising assigns only the tabled derived fields (lengths, checksums, next-protocol tags ...): "
                                      "every other field keeps the value that was set", 25)
+    rep.rule("R9-wide-address", "a setter template that accepts hardware addresses of any length writes only its own field even when the "
+                                "address is longer than the field (BootP::chaddr with a 20-octet address)", 1)
     rep.rule("R8-derived-always", "length, header-length and checksum fields are (re)derived on every path through their serialiser", 15)
     rep.rule("R6-address-order", "IPv4/IPv6/hardware address setters store the octets in the order the address object holds them (network "
                                  "order): no byte swap between the address and the header", 10)
@@ -364,6 +366,7 @@ def run(db, rep, tier):
     serialiser_stores(db, rep)
     endian_arms(db, rep)
     selector_accessors(db, rep)
+    wide_hw_setters(db, rep)
     rep.extra["pairs"] = dict(stats)
     if stats.get("address-order checked", 0) < 10:
         rep.analysis_broken("only %d address-typed setters found for R6" % stats.get("address-order checked", 0))
@@ -726,3 +729,46 @@ def selector_accessors(db, rep):
                 rep.ok("R7-selector-accessors", key, site, "value returned, other selectors unchanged%s" % (", shown at its own bit of the whole field" if ws else ""))
     if n < 8:
         rep.analysis_broken("only %d selector accessor instances found (TCP::set_flag expected)" % n)
+
+
+WIDE_TU = """#include <tins/tins.h>
+template void Tins::BootP::chaddr<20>(const Tins::HWAddress<20>&);
+"""
+
+
+def wide_hw_setters(db, rep):
+    try:
+        d2 = facts.extract_standalone(db, "c15wide", WIDE_TU)
+    except facts.AnalysisBroken as e:
+        rep.analysis_broken("BootP::chaddr<20> does not instantiate: %s" % str(e)[:200])
+        return
+    fs = [f for fid, f in d2.functions.items() if fid.startswith("Tins::BootP::chaddr<20") and f.get("body")]
+    key = "BootP::chaddr<20>"
+    if not fs:
+        rep.analysis_broken("BootP::chaddr<20> not found in the synthetic TU")
+        return
+    s_ = fs[0]
+    rec = "Tins::BootP"
+    try:
+        m = bp.Machine(d2)
+        this = m.new_region("this", "m")
+        thisloc = bp.Loc(this, 0, {"k": "rec", "name": rec, "size": d2.records[rec]["size"]})
+        r = m.new_region("P", "p")
+        pt = facts.tyi(s_, s_["params"][0].get("t"))
+        while pt.get("k") == "ref" and pt.get("to"):
+            pt = pt["to"]
+        m.call(s_, thisloc, [bp.Loc(r, 0, pt)])
+        post = dict(m.regions[this])
+    except (bp.Unsupported, bp.Throw) as e:
+        rep.analysis_broken("%s: outside the E-BITS language: %s" % (key, e))
+        return
+    changed = set(b for b, v in post.items() if isinstance(b, int) and v != ("m", b))
+    mem = members_of_bits(d2, rec, changed)
+    leafs = set(leaf_member(d2, rec, b) for b in changed)
+    stray = sorted(x for x in leafs if "chaddr" not in x)
+    if stray:
+        rep.violation("R9-wide-address", key, facts.loc(s_),
+                      "with a 20-octet address the setter also writes %s: octets beyond the 16-octet field spill into the members that follow"
+                      % stray[:3])
+    else:
+        rep.ok("R9-wide-address", key, facts.loc(s_), "writes %d bits, all inside chaddr" % len(changed))
